@@ -4,6 +4,7 @@ import (
 	"fmt"
 	"math/rand"
 	"net"
+	"os"
 	"regexp"
 	"strconv"
 	"sync"
@@ -175,6 +176,15 @@ type c14In struct {
 }
 
 func c14(r *vlib.Run) int {
+	min := c14Body(r)
+	if r.Tier == "thorough" || os.Getenv("VERIF_FORCE_RACE") != "" {
+		// secondary monitor: the same workload (reduced) against -race builds
+		r.RacePass([]string{"server.(*stats)", "server.(*Server).handleConnection", "server.(*Server).listenerLoop"}, func() { c14Body(r) })
+	}
+	return min
+}
+
+func c14Body(r *vlib.Run) int {
 	r.Rule("histories of {key login without channel, +1 shell, +3 channels, +3 shell requests on one channel, health login, non-session " +
 		"channel, unknown request type, wrong password/key/user, raw TCP connect+close before/mid handshake, orderly and abrupt (RST) " +
 		"close} against servers with MaxConnections in {1,3,5}; oracles at quiescent points: probe accepted iff open < Max; last reported " +
